@@ -151,7 +151,7 @@ def _frame(e):
     return '?'
 
 
-SUBS = [Sub('compile', cases, check, {'quick': 1500, 'thorough': 12000}, timeout=25)]
+SUBS = [Sub('compile', cases, check, {'quick': 1500, 'thorough': 12000}, timeout=25, deterministic=False)]   # maxprocs=2 configurations depend on scheduling; the oracle is the independent reference
 
 def _upstream_c01(case, v):
     prog = case.get('prog', case)
